@@ -538,3 +538,14 @@ Example ex_nonce_carry : nonce_inc (repeat 0 21 ++ [1; 255; 255]) = repeat 0 21 
 Proof. vm_compute. reflexivity. Qed.
 Example ex_nonce_wrap : nonce_inc (repeat 255 24) = repeat 0 24.
 Proof. vm_compute. reflexivity. Qed.
+
+(* ---------------------------------------------------------------- UDP reply key *)
+
+Lemma sess_run_last {K} (st : option K) (ks : list K) (k : K) : sess_run K st (ks ++ [k]) = Some k.
+Proof. unfold sess_run. rewrite fold_left_app. reflexivity. Qed.
+
+Lemma sess_run_nil {K} (st : option K) : sess_run K st [] = st.
+Proof. reflexivity. Qed.
+
+Example ex_sess_run : sess_run N None [1700000040; 1700000040; 1700000160; 1700000280] = Some 1700000280.
+Proof. reflexivity. Qed.
